@@ -332,8 +332,102 @@ fn check_predicates(lang: &str, language: &tree_sitter::Language, env: &Env, res
     }
 }
 
+// ---- nested documents: many finished matches held back by an enclosing unfinished one --------------------------------
+/// Queries with several captures per match and a text predicate on the first one, over EVERY nesting structure of up to N
+/// arrays whose first element is 1 or 2 (jsonish). An outer array's match stays unfinished until its closing bracket, so
+/// the finished matches of all inner arrays queue up behind it; the capture iterator then hands them out in document order,
+/// and the Rust iterator removes the matches whose predicate fails after their first capture was handed out.
+const NESTED_QUERIES: [&str; 6] = [
+    // sibling captures: every pair / triple of numbers of an array is a match, and all of them stay queued until the array ends
+    "(array (number) @name (number) @end (#not-eq? @name \"1\"))",
+    "(array (number) @first (number) @name (number) @end (#not-eq? @name \"1\"))",
+    "(array . (number) @name \"]\" @end (#not-eq? @name \"1\"))",
+    "(array . (number) @name \"]\" @end (#eq? @name \"1\"))",
+    "(array . (number) @name \"]\" @end (#not-eq? @name \"1\"))\n(number) @n",
+    "(array \"[\" @open . (number) @name (array)* @subs \"]\" @end (#not-eq? @name \"2\"))",
+];
+
+/// all ordered forests of `n` nodes as Dyck words ('(' = open a node, ')' = close it)
+fn forests(n: usize) -> Vec<Vec<bool>> {
+    fn rec(open: usize, close: usize, cur: &mut Vec<bool>, out: &mut Vec<Vec<bool>>) {
+        if open == 0 && close == 0 { out.push(cur.clone()); return; }
+        if open > 0 { cur.push(true); rec(open - 1, close + 1, cur, out); cur.pop(); }
+        if close > 0 { cur.push(false); rec(open, close - 1, cur, out); cur.pop(); }
+    }
+    let mut out = vec![];
+    rec(n, 0, &mut vec![], &mut out);
+    out
+}
+
+fn nested_doc(shape: &[bool], labels: u32) -> Vec<u8> {
+    // one root array around the forest; node k (pre-order, root = 0) starts with the number 1 or 2 by bit k of `labels`
+    let mut s = Vec::new();
+    let mut k = 0u32;
+    let mut open_node = |s: &mut Vec<u8>, k: &mut u32| { if s.last().map_or(false, |&c| c != b'[') { s.push(b','); } s.push(b'['); s.push(if labels & (1 << *k) != 0 { b'2' } else { b'1' }); *k += 1; };
+    open_node(&mut s, &mut k);
+    for &o in shape { if o { open_node(&mut s, &mut k); } else { s.push(b']'); } }
+    s.push(b']');
+    s
+}
+
+fn check_nested(ctx: &Ctx, res: &mut ShardResult, idx: &mut usize) {
+    let z = crate::zoo::by_name("jsonish").unwrap();
+    let info = build_info(&z);
+    let queries: Vec<(String, Query, Query, Pred)> = NESTED_QUERIES.iter().map(|src| {
+        let first = src.lines().next().unwrap();
+        let (raw_first, pred) = parse_pred(first);
+        let raw_src = src.replacen(first, &raw_first, 1);
+        (src.to_string(), Query::new(&info.language, src).expect("nested query"), Query::new(&info.language, &raw_src).expect("nested raw query"), pred)
+    }).collect();
+    let max_nodes = if ctx.mini() { 5 } else if ctx.quick() { 8 } else { 10 };
+    let mut parser = Parser::new();
+    parser.set_language(&info.language).unwrap();
+    // flat arrays of k numbers (as the last "shape" of every size): [l1,l2,...,lk]
+    let max_flat = if ctx.mini() { 4 } else if ctx.quick() { 7 } else { 9 };
+    for n in 1..=max_nodes.max(max_flat) {
+        let mut shapes: Vec<Option<Vec<bool>>> = if n <= max_nodes { forests(n - 1).into_iter().map(Some).collect() } else { vec![] };
+        if n >= 2 && n <= max_flat { shapes.push(None); }
+        for shape in shapes {
+            *idx += 1;
+            if !ctx.mine(*idx) { continue; }
+            for labels in 0..(1u32 << n) {
+                let d = match &shape {
+                    Some(sh) => nested_doc(sh, labels),
+                    None => { let mut s = vec![b'[']; for k in 0..n { if k > 0 { s.push(b','); } s.push(if labels & (1 << k) != 0 { b'2' } else { b'1' }); } s.push(b']'); s }
+                };
+                let tree = parser.parse(&d, None).unwrap();
+                let xt = XTree::build(&tree);
+                if xt.root_has_error() { res.violation("ENGINE-nested-document-has-error", String::from_utf8_lossy(&d).to_string(), json!({})); return; }
+                let env = Env::new(&tree, &d, &xt);
+                res.states += 1;
+                for (src, q, raw, pred) in &queries {
+                    crate::case!("{}", case_json("jsonish", src, &d, json!({"part": "nested"})));
+                    res.transitions += 1;
+                    let mut cur = QueryCursor::new();
+                    let raw_m = env.matches(&mut cur, raw);
+                    // the predicate belongs to pattern 0; matches of other patterns pass
+                    let want: Vec<MatchRec> = raw_m.iter().filter(|m| m.pattern != 0 || eval_pred(pred, raw, m, &env)).cloned().collect();
+                    let got_c = env.captures(&mut cur, q);
+                    if want.len() < raw_m.len() && want.len() > 1 { res.nontrivial += 1; }
+                    let starts: Vec<usize> = got_c.iter().map(|c| xt.nodes[c.node].start).collect();
+                    if starts.windows(2).any(|w| w[0] > w[1]) {
+                        res.violation("captures-out-of-document-order", format!("query {:?} on {:?}: capture start bytes {:?}", src, String::from_utf8_lossy(&d), starts), case_json("jsonish", src, &d, json!({"part": "nested"})));
+                    } else if triples_of_caps(&got_c) != triples_of_matches(&want) {
+                        res.violation("predicate-captures-differ-from-matches", format!("query {:?} on {:?}: captures {:?}, matches that satisfy the predicate {:?}", src, String::from_utf8_lossy(&d), triples_of_caps(&got_c), triples_of_matches(&want)), case_json("jsonish", src, &d, json!({"part": "nested"})));
+                    }
+                    res.outcome(crate::util::fnv_mix(got_c.len() as u64, want.len() as u64));
+                }
+                if res.too_many() { return; }
+            }
+            if ctx.out_of_time() { res.caps.push("wall-clock budget reached (nested documents)".into()); return; }
+        }
+    }
+}
+
 pub fn worker(ctx: &Ctx, res: &mut ShardResult) {
     let mut idx = 0usize;
+    check_nested(ctx, res, &mut idx);
+    if res.too_many() { return; }
     for (lname, pats) in [("stmts", &PATTERNS[..]), ("jsonish", &JSON_PATTERNS[..])] {
         let z = crate::zoo::by_name(lname).unwrap();
         let info = build_info(&z);
